@@ -1227,6 +1227,16 @@ func (c *Compiler) compileFunc(node *ast.Func) error {
 	if freeCount > 0 {
 		for i := uint16(0); i < freeCount; i++ {
 			resolution := code.symbols.Free(i)
+			if resolution.depth > 1 {
+				// The variable belongs to a function further out than the one being
+				// compiled now, so it is a free variable of this function as well:
+				// pass on the cell this function received for it.
+				outer, found := c.current.symbols.Resolve(resolution.symbol.Name())
+				if found && outer.scope == Free {
+					c.emit(op.LoadCell, uint16(outer.freeIndex))
+					continue
+				}
+			}
 			c.emit(op.MakeCell, resolution.symbol.Index(), uint16(resolution.depth-1))
 		}
 		c.emit(op.LoadClosure, c.constant(fn), freeCount)
